@@ -190,6 +190,31 @@ def job(args):
             ob('G1', f"mesh.{cls}/axis={ax}/facecenters", is_zero(v - f(ax, i)), f"facecenters[{i}] = {fmt_rat(v)}")
     if len(samples) < 1:
         samples.append(dict(rule='G1', cls=cls, cellsize_generic=fmt_rat(snap(cs.attrs['_x']).at((w.t[0],))), ghost=fmt_rat(snap(cs.attrs['_x']).at((ZERO,)))))
+    # G1e the face-position form on exactly equispaced faces with an arbitrary origin (f[i] = X0 + i*h): an `all sizes equal`
+    # shortcut in a constructor is taken here, and must still report the faces as given
+    we = World(sm, cls, uniform='faces')
+    me = we.mesh
+    for k in range(d):
+        ax = AX[k]
+        n = we.N[k]
+        x0, h = Rat.atom(('X0', ax)), Rat.atom(('h', ax))
+        size = snap(me.attrs['cellsize'].attrs['_' + ax])
+        cen = snap(me.attrs['cellcenters'].attrs['_' + ax])
+        fac = snap(me.attrs['facecenters'].attrs['_' + ax])
+        t = we.t[k]
+        shp_ok = is_zero(size.shape[0] - (n + 2)) and is_zero(cen.shape[0] - n) and is_zero(fac.shape[0] - (n + 1))
+        ob('G1', f"mesh.{cls}/axis={ax}/equispaced-faces/shapes", shp_ok, f"lengths sizes={size.shape[0]} centres={cen.shape[0]} faces={fac.shape[0]}")
+        if not shp_ok:
+            continue
+        for c in (ZERO, ONE, t, n, n + 1):
+            v = size.at((c,))
+            ob('G1', f"mesh.{cls}/axis={ax}/equispaced-faces/cellsize", is_zero(v - h), f"faces X0 + i*h: cellsize[{c}] = {fmt_rat(v)}")
+        for p in (ZERO, t, n - 1):
+            v = cen.at((p,))
+            ob('G1', f"mesh.{cls}/axis={ax}/equispaced-faces/cellcenters", is_zero(v - (x0 + p * h + h / 2)), f"faces X0 + i*h: cellcenters[{p}] = {fmt_rat(v)}")
+        for i in (ZERO, t, n):
+            v = fac.at((i,))
+            ob('G1', f"mesh.{cls}/axis={ax}/equispaced-faces/facecenters", is_zero(v - (x0 + i * h)), f"faces X0 + i*h: facecenters[{i}] = {fmt_rat(v)}")
     # G2 uniform form
     wu = World(sm, cls, uniform=True)
     mu = wu.mesh
